@@ -517,6 +517,11 @@ RECV_KEEP = re.compile(r"^(os\.|self\._(remove_existing|extract_file|decide_dest
                        r"estimate_free_space$|f\.close$|\w+\.startswith$|shutil\.|tempfile\.)")
 
 
+# the control flow around them: every call on `self`, every exception raised, every os/shutil call
+RECV_FLOW_METHODS = ["_go", "_parse_offer"]
+RECV_FLOW_KEEP = re.compile(r"^(self\.|os\.|shutil\.|tempfile\.|\w*Error$)")
+
+
 def extract_recv():
     """tmp-file suffix of Receiver._handle_file and the ordered (guard, callee) lists of the
     path-handling methods of cmd_receive.Receiver (nothing filtered but printing/formatting)."""
@@ -536,6 +541,12 @@ def extract_recv():
         for n in fn.body:
             sk.visit(n)
         calls[name] = [(g, c) for g, c in sk.calls if RECV_KEEP.match(c)]
+    for name in RECV_FLOW_METHODS:
+        fn = ast.parse(textwrap.dedent(inspect.getsource(getattr(R, name)))).body[0]
+        sk = _Skel()
+        for n in fn.body:
+            sk.visit(n)
+        calls[name] = [(g, c) for g, c in sk.calls if RECV_FLOW_KEEP.match(c)]
     L = ["namespace WV.Gen.Recv",
          "/-- `tmp_destname = self.abs_destname + <this>` in Receiver._handle_file (empty: not of that shape) -/",
          f"def tmp_suffix : String := {lean_str(suffix or '')}",
